@@ -645,6 +645,30 @@ func vAddFailing(s *store, e vGenEvent, code int) (err error, fired bool) {
 	return err, f != nil && f.fired
 }
 
+// vStaleEntry: the Conflicted() entry of one DID and both counters right after an Add whose second write transaction
+// was rolled back (ccB / dcB = the counters before that Add)
+func vStaleEntry(s *store, id string, ccB, dcB uint) (res string) {
+	defer func() {
+		if r := recover(); r != nil {
+			res = id + "=panic"
+		}
+	}()
+	entry := "-"
+	_ = s.Conflicted(func(doc did.Document, md resolver.DocumentMetadata) error {
+		if doc.ID.String() == id {
+			var src []string
+			for _, st := range md.SourceTransactions {
+				src = append(src, vShort(st))
+			}
+			entry = vContentName(doc) + "/" + strings.Join(src, ",")
+		}
+		return nil
+	})
+	cc, _ := s.ConflictedCount()
+	dc, _ := s.DocumentCount()
+	return fmt.Sprintf("%s=%s cc=%d>%d dc=%d>%d", id, entry, ccB, cc, dcB, dc)
+}
+
 // vGateDB steers scheduling only: the k-th Write CALL after arming is parked (before it reaches the real store, so
 // no lock is held) until release is closed. Everything else passes through.
 type vGateDB struct {
@@ -1208,6 +1232,7 @@ func TestVerifC10(t *testing.T) {
 		}
 		vSortIterate = backend == "redis" // redis SCAN has no key order: the order of Iterate is the backend's, not the store's
 		addErrs := ""
+		var stale []string
 		skip := false
 		for pos, k := range arrival {
 			if skip {
@@ -1251,7 +1276,17 @@ func TestVerifC10(t *testing.T) {
 						addErrs += fmt.Sprintf("addpanic@%d(ev%d) ", pos, k)
 					}
 				}()
+				var ccB, dcB uint
+				if code == 3 {
+					ccB, _ = s.ConflictedCount()
+					dcB, _ = s.DocumentCount()
+				}
 				err, fired := vAddFailing(s, evs[k], code)
+				if code == 3 && fired {
+					// the closure of the second write transaction ran to its end and the transaction was rolled back:
+					// what Conflicted() and the counters say NOW (before any re-delivery)
+					stale = append(stale, vStaleEntry(s, evs[k].doc.ID.String(), ccB, dcB))
+				}
 				if code != 0 && !fired && pos < len(fail) {
 					fail[pos] = 0 // the failure point was never reached: this was a plain Add
 					code = 0
@@ -1286,6 +1321,12 @@ func TestVerifC10(t *testing.T) {
 		opsW.WriteString(`{"op":"raw"}` + "\n")
 		implW.WriteString(vRawDump(s))
 		implW.WriteByte('\n')
+		// the in-memory conflicted cache right after every rolled-back Add of this sequence
+		if len(stale) > 0 {
+			opsW.WriteString(`{"op":"stale"}` + "\n")
+			implW.WriteString("stale " + strings.Join(stale, " | "))
+			implW.WriteByte('\n')
+		}
 		// every read entry point with a failing k-th Get of its read transaction
 		if vReadFaultLeg {
 			opsW.WriteString(`{"op":"rfault"}` + "\n")
